@@ -1052,7 +1052,11 @@ def crafted_cases(c, klen, vc, seed, quick=True):
 # shard plan
 # ---------------------------------------------------------------------------
 RC2_EFF = tuple(sorted(set(range(40, 1025, 8)) | {41, 47, 57, 63, 65, 127, 129, 1017, 1023}))
+RC2_EFF_ALL = tuple(range(40, 1025))          # thorough: every legal effective key length
 BIG = (1023, 1024, 1025, 4095, 4096, 4097, 65537)
+# thorough: 2^k-1, 2^k, 2^k+1 for k = 9..16 (a superset of BIG), and for a few configurations 2^17 and 2^20 (+-1)
+BIG_DEEP = tuple(v for k in range(9, 17) for v in ((1 << k) - 1, 1 << k, (1 << k) + 1))
+BIG_HUGE = ((1 << 17) - 1, 1 << 17, (1 << 17) + 1, (1 << 20) - 1, 1 << 20, (1 << 20) + 1)
 
 
 def classic_keys(quick):
@@ -1061,6 +1065,8 @@ def classic_keys(quick):
     out += [("Blowfish", k, None) for k in (4, 16, 56)] + [("CAST", k, None) for k in (5, 10, 11, 16)]
     out += [("ARC2", 5, None), ("ARC2", 16, None), ("ARC2", 128, None), ("ARC2", 8, 64), ("ARC2", 16, 40), ("ARC2", 16, 129)]
     out += [("AES", 16, "noaesni"), ("AES", 32, "noaesni")]
+    if not quick:
+        out += [("AES", 24, "noaesni")]
     return out
 
 
@@ -1070,12 +1076,31 @@ def gcm_nonce_lens(quick):
 
 def eax_nonce_lens(quick, bs):
     if bs == 8:
-        return (1, 8, 9) if quick else (1, 7, 8, 9, 16, 17)
-    return (1, 8, 16, 17) if quick else (1, 8, 15, 16, 17, 31, 32, 33, 64, 65)
+        return (1, 8, 9) if quick else (1, 2, 7, 8, 9, 15, 16, 17, 24, 25)
+    return (1, 8, 16, 17) if quick else (1, 2, 8, 12, 15, 16, 17, 24, 31, 32, 33, 47, 48, 49, 64, 65)
 
 
 def siv_nonce_lens(quick):
-    return (None, 1, 12, 16) if quick else (None, 1, 12, 15, 16, 17, 32, 33)
+    return (None, 1, 12, 16) if quick else (None, 1, 2, 8, 12, 15, 16, 17, 24, 31, 32, 33, 64, 65)
+
+
+def big_configs():
+    """thorough tier, multi-kilobyte part: (prefix-closed configurations, per-length configurations)"""
+    pc = []                                                   # one reference run at the largest length, every length checked
+    for (c, klen) in (("AES", 16), ("AES", 24), ("AES", 32), ("DES", 8), ("DES3", 16), ("DES3", 24), ("Blowfish", 16),
+                      ("Blowfish", 56), ("CAST", 16), ("CAST", 5), ("ARC2", 16), ("ARC2", 128)):
+        for m in ("ECB", "CBC", "CFB", "CFBmid", "CFB128", "OFB", "CTR", "CTRle", "OPENPGP"):
+            pc.append(("classic", c, klen, m))
+    pc += [("stream", "ChaCha20", 32, 8), ("stream", "ChaCha20", 32, 12), ("stream", "ChaCha20", 32, 24),
+           ("stream", "Salsa20", 32, None), ("stream", "Salsa20", 16, None), ("stream", "ARC4", 16, None),
+           ("stream", "ARC4", 5, None), ("stream", "ARC4", 256, None)]
+    pl = []                                                   # tag / wrapping depend on the whole input: one run per length
+    for klen in (16, 24, 32):
+        pl += [("aead", "AES", klen, m) for m in ("GCM", "CCM", "EAX", "OCB")] + [("aead", "AES", 2 * klen, "SIV")]
+        pl += [("kw", "AES", klen, "KW"), ("kw", "AES", klen, "KWP")]
+    pl += [("aead", "ChaCha20", 32, "CHAPOLY"), ("aead", "ChaCha20", 32, "CHAPOLY24"), ("aead", "DES3", 24, "EAX"),
+           ("aead", "Blowfish", 16, "EAX")]
+    return pc, pl
 
 
 def plan(quick, seed):
@@ -1087,22 +1112,34 @@ def plan(quick, seed):
         for klen in KEYLENS[c]:
             S.append((2 if c == "Blowfish" else 1, ("block", c, klen, None, VCLS)))
     for klen in KEYLENS["ARC2"]:
-        S.append((6, ("block", "ARC2", klen, "grid", vcs)))
+        if quick:
+            S.append((6, ("block", "ARC2", klen, "grid", vcs)))
+        else:
+            for vc in vcs:
+                S.append((8, ("block", "ARC2", klen, "gridall", (vc,))))
     S.append((1, ("kat",)))
     # ---- classic modes
     # (a) ECB/CBC/CFB-all-segments/OFB/OpenPGP for EVERY legal key length of every cipher
     for c in BS:
         for klen in KEYLENS[c]:
             for vc in (("seed",) if quick else VCLS):
-                S.append((6 if BS[c] == 16 else 2, ("classic", c, klen, None, vc, "basic", "all")))
+                S.append((6 if BS[c] == 16 else 2, ("classic", c, klen, None, vc, "basic", "all" if quick else "deep")))
     for (c, klen, eff) in classic_keys(quick):
         for vc in vcs:
             if eff is not None:
-                S.append((2, ("classic", c, klen, eff, vc, "basic", "all")))
+                S.append((2, ("classic", c, klen, eff, vc, "basic", "all" if quick else "deep")))
             # (b) CTR with nonce= / initial_value=
-            S.append((12 if BS[c] == 16 else 3, ("classic", c, klen, eff, vc, "ctrn", "all")))
+            S.append((12 if BS[c] == 16 else 3, ("classic", c, klen, eff, vc, "ctrn", "all" if quick else "deep")))
             # (c) CTR with Counter.new layouts
-            full = (not quick) or ((c, klen) in (("AES", 16), ("DES3", 24)) and vc == "seed")
+            if not quick:          # 8 initial values per layout, every length 0..16 blocks+1; AES split in 4 shards
+                for g in ("ctrd0", "ctrd1"):
+                    if BS[c] == 16:
+                        for i in range(4):
+                            S.append((30, ("classic", c, klen, eff, vc, "%s/%d/4" % (g, i), "deep")))
+                    else:
+                        S.append((28, ("classic", c, klen, eff, vc, g, "deep")))
+                continue
+            full = ((c, klen) in (("AES", 16), ("DES3", 24)) and vc == "seed")
             for g in ("ctrc0", "ctrc1"):
                 S.append(((50 if BS[c] == 16 else 8) if full else 4, ("classic", c, klen, eff, vc, g, "all" if full else "few")))
     # ---- AEAD grid
@@ -1122,26 +1159,42 @@ def plan(quick, seed):
     for vc in (("seed", "zero") if quick else VCLS):
         for nl in (8, 12, 24):
             S.append((2, ("aead", "CHAPOLY", "ChaCha20", 32, nl, vc)))
-        for (c, klen) in [("DES3", 16), ("DES3", 24), ("DES", 8), ("Blowfish", 16), ("CAST", 16), ("ARC2", 16)]:
+        eax8 = [("DES3", 16, None), ("DES3", 24, None), ("DES", 8, None), ("Blowfish", 16, None), ("CAST", 16, None),
+                ("ARC2", 16, None)]
+        if not quick:              # every (cipher, key length, effective_keylen) that gets the full CTR treatment
+            eax8 = [k for k in classic_keys(quick) if BS[k[0]] == 8]
+        for (c, klen, eff) in eax8:
             if quick and vc != "seed" and c != "DES3":
                 continue
             for nl in eax_nonce_lens(quick, 8):
-                S.append((8 if c == "DES3" else 4, ("aead", "EAX", c, klen, nl, vc)))
+                S.append((8 if c == "DES3" else 4, ("aead", "EAX", c, klen, nl, vc) + (() if eff is None else (eff,))))
     # ---- AEAD every message length
     for vc in (("seed",) if quick else VCLS):
         for klen in ((16,) if quick else (16, 24, 32)):
             for mode in ("GCM", "CCM", "EAX", "OCB", "SIV"):
                 S.append((12, ("aeadlen", mode, "AES", 2 * klen if mode == "SIV" else klen, vc)))
-        S.append((8, ("aeadlen", "CHAPOLY", "ChaCha20", 32, vc)))
-        S.append((8, ("aeadlen", "EAX", "DES3", 24, vc)))
+        S.append((8 if quick else 40, ("aeadlen", "CHAPOLY", "ChaCha20", 32, vc)))
+        S.append((8 if quick else 30, ("aeadlen", "EAX", "DES3", 24, vc)))
+        if not quick:
+            for (c, klen) in (("DES3", 16), ("DES", 8), ("Blowfish", 16), ("CAST", 16), ("ARC2", 16)):
+                S.append((20, ("aeadlen", "EAX", c, klen, vc)))
     # ---- OCB: all 256 values of the last nonce byte; CCM AAD header boundary; SIV component count; counter wraps
     for vc in (("seed",) if quick else VCLS):
-        for klen in ((16,) if quick else (16, 32)):
-            for nl in (1, 12, 15):
+        for klen in ((16,) if quick else (16, 24, 32)):
+            for nl in ((1, 12, 15) if quick else range(1, 16)):
                 S.append((6, ("ocb256", klen, nl, vc)))
-        S.append((12, ("ccmhdr", 16, vc)))
-        S.append((6, ("sivmany", 32, vc)))
-        for (c, klen) in (("AES", 16), ("AES", 32), ("DES3", 24), ("Blowfish", 16)):
+        if quick:
+            S.append((12, ("ccmhdr", 16, vc)))
+            S.append((6, ("sivmany", 32, vc)))
+        else:
+            for klen in (16, 24, 32):
+                for v in CCM_VARIANTS:
+                    S.append((25, ("ccmhdr", klen, vc, v)))
+                S.append((6, ("sivmany", 2 * klen, vc)))
+        crk = (("AES", 16), ("AES", 32), ("DES3", 24), ("Blowfish", 16))
+        if not quick:
+            crk += (("AES", 24), ("DES3", 16), ("DES", 8), ("CAST", 16), ("ARC2", 16))
+        for (c, klen) in crk:
             S.append((4, ("crafted", c, klen, vc)))
     # ---- stream ciphers
     for vc in vcs:
@@ -1154,16 +1207,25 @@ def plan(quick, seed):
     # ---- key wrap
     for klen in (16, 24, 32):
         for vc in vcs:
-            S.append((8, ("kw", klen, vc)))
+            if quick:
+                S.append((8, ("kw", klen, vc)))
+            else:
+                for i in range(8):
+                    S.append((10, ("kw", klen, vc, i, 8)))
     # ---- library-chosen IV / nonce
     for vc in VCLS:
         S.append((3, ("auto", vc)))
     # ---- DES3 key handling
     for klen in (16, 24):
         for pos in range(klen):
-            S.append((2, ("des3key", "bytes", klen, pos)))
+            S.append((2, ("des3key", "bytes", klen, pos) + (() if quick else ("deep",))))
     S.append((3, ("des3key", "degenerate", asc(8, 0x20))))
     S.append((3, ("des3key", "degenerate", seeded("c02/degen", 8, seed))))
+    if not quick:
+        S.append((3, ("des3key", "degenerate", bytes(8))))
+        S.append((3, ("des3key", "degenerate", b"\xff" * 8)))
+        S.append((3, ("des3key", "degenerate", asc(8, 0xF9))))
+        S.append((3, ("des3key", "degenerate", seeded("c02/degen2", 8, seed))))
     # ---- multi-kilobyte messages
     if quick:
         bigs = [("classic", "AES", 16, "CBC"), ("classic", "AES", 16, "CTR"), ("classic", "AES", 16, "CFB"),
@@ -1173,15 +1235,23 @@ def plan(quick, seed):
                 ("stream", "ARC4", 16, None)]
         Ls = (1023, 1024, 1025, 4095, 4096, 4097)
     else:
-        bigs = [("classic", "AES", 16, m) for m in ("ECB", "CBC", "CFB", "CFB128", "OFB", "CTR", "OPENPGP")]
-        bigs += [("classic", "DES3", 24, "CBC"), ("classic", "DES3", 24, "CTR"), ("classic", "AES", 32, "CTR"),
-                 ("classic", "Blowfish", 16, "CFB"), ("classic", "CAST", 16, "OFB"), ("classic", "ARC2", 16, "CBC")]
-        bigs += [("aead", "AES", 16, m) for m in ("GCM", "CCM", "EAX", "OCB")] + [("aead", "AES", 32, "SIV"),
-                                                                                  ("aead", "AES", 32, "GCM"),
-                                                                                  ("aead", "ChaCha20", 32, "CHAPOLY")]
-        bigs += [("stream", "ChaCha20", 32, None), ("stream", "Salsa20", 32, None), ("stream", "ARC4", 16, None)]
-        bigs += [("kw", "AES", 16, "KW"), ("kw", "AES", 16, "KWP")]
-        Ls = BIG
+        bigs, Ls = [], ()
+        pc, pl = big_configs()
+        for b in pc:
+            for vc in VCLS:
+                huge = vc == "seed" and b[1:3] in (("AES", 16), ("ChaCha20", 32), ("Salsa20", 32), ("ARC4", 16)) \
+                    and b[3] not in ("CFB", "CFBmid")
+                S.append(((60 if huge else 25) + (40 if b[3] in ("CFB", "CFBmid") else 0), ("bigp",) + b + (vc, huge)))
+        for b in pl:
+            ls = BIG_DEEP
+            if b[3] == "KW":                                  # multiples of 8 only: the two nearest of each size
+                ls = sorted(set(v for L in BIG_DEEP for v in (L // 8 * 8, -(-L // 8) * 8)))
+            for vc in (VCLS if b[0] == "aead" else ("seed", "ones")):
+                for L in ls:
+                    S.append(((4 + L // 3000) * (4 if b[0] == "kw" or b[1] != "AES" else 1), ("big",) + b + (L, vc)))
+            if b[0] == "aead" and b[1:3] in (("AES", 16), ("AES", 64), ("ChaCha20", 32)) and b[3] != "CHAPOLY24":
+                for L in BIG_HUGE:
+                    S.append((4 + L // 3000, ("big",) + b + (L, "seed")))
     for b in bigs:
         bs = BS.get(b[1], 1)
         ls = Ls
@@ -1193,7 +1263,9 @@ def plan(quick, seed):
             for vc in (("seed",) if quick else ("seed", "ones")):
                 S.append((4 + L // 4000, ("big",) + b + (L, vc)))
     if not quick:
-        S.append((30, ("big", "aead", "AES", 16, "CCM13", 65535, "seed")))
+        for vc in VCLS:           # the longest message a 13-byte CCM nonce allows, and one byte less
+            S.append((30, ("big", "aead", "AES", 16, "CCM13", 65535, vc)))
+            S.append((30, ("big", "aead", "AES", 32, "CCM13", 65534, vc)))
     return S
 
 
@@ -1203,7 +1275,7 @@ def cases_of(shard, quick, seed):
     if kind == "block":
         _, c, klen, eff, vcs = shard
         for vc in vcs:
-            effs = RC2_EFF if eff == "grid" else (None,)
+            effs = RC2_EFF if eff == "grid" else (RC2_EFF_ALL if eff == "gridall" else (None,))
             for e in effs:
                 yield ("block", {"part": "block", "c": c, "klen": klen, "eff": e, "vc": vc, "seed": seed})
             if c == "AES":
@@ -1216,7 +1288,7 @@ def cases_of(shard, quick, seed):
                 yield ("kat", {"part": "kat", "c": "ARC2", "i": i})
     elif kind == "classic":
         _, c, klen, eff, vc, group, lsel = shard
-        ls = lens_all(BS[c]) if lsel == "all" else lens_few(BS[c])
+        ls = {"all": lens_all, "deep": lens_deep, "few": lens_few}[lsel](BS[c])
         for cfg in classic_cfgs(c, klen, eff, vc, seed, group):
             yield ("classic", cfg, ls)
         if group == "ctrn":
@@ -1227,8 +1299,8 @@ def cases_of(shard, quick, seed):
             yield ("classic", dict(base, ctr={"kind": "nonce", "nl": bs - 1, "iv": 0x80}), full)
             yield ("classic", dict(base, ctr={"kind": "counter", "p": 3, "cl": 1, "s": bs - 4, "le": True, "iv": 0xF9}), full)
     elif kind == "aead":
-        _, mode, c, klen, nl, vc = shard
-        for cfg in aead_grid(mode, c, klen, nl, vc, seed, quick):
+        _, mode, c, klen, nl, vc = shard[:6]
+        for cfg in aead_grid(mode, c, klen, nl, vc, seed, quick, shard[6] if len(shard) > 6 else None):
             yield ("aead", cfg)
     elif kind == "aeadlen":
         _, mode, c, klen, vc = shard
@@ -1237,51 +1309,78 @@ def cases_of(shard, quick, seed):
     elif kind == "ocb256":
         _, klen, nl, vc = shard
         for last in range(256):
-            for tl in (16, 12):
+            for tl in ((16, 12) if quick else (16, 12, 8)):
                 for (a, L) in ((0, 33), (17, 16)):
                     yield ("aead", {"part": "aead", "c": "AES", "klen": klen, "vc": vc, "seed": seed, "mode": "OCB",
                                     "nl": nl, "tl": tl, "aad": a, "L": L, "last": last})
     elif kind == "ccmhdr":
-        _, klen, vc = shard
-        for a in (0xFEFF, 0xFF00, 0xFF01, 0x10000):
-            for v in ("auto", "declared"):
-                for (nl, tl, L) in ((11, 16, 17), (13, 4, 0)):
+        klen, vc = shard[1], shard[2]
+        deep = len(shard) > 3          # thorough: one shard per declaration variant, 7 AAD lengths, 3 (nonce, tag, message)
+        for a in ((0xFEFE, 0xFEFF, 0xFF00, 0xFF01, 0xFFFF, 0x10000, 0x10001) if deep else (0xFEFF, 0xFF00, 0xFF01, 0x10000)):
+            for v in ((shard[3],) if deep else ("auto", "declared")):
+                for (nl, tl, L) in (((11, 16, 17), (13, 4, 0), (7, 10, 1)) if deep else ((11, 16, 17), (13, 4, 0))):
                     yield ("aead", {"part": "aead", "c": "AES", "klen": klen, "vc": vc, "seed": seed, "mode": "CCM",
                                     "nl": nl, "tl": tl, "aad": a, "L": L, "ccm": v})
     elif kind == "sivmany":
         _, klen, vc = shard
-        for (n, nl) in ((126, None), (125, 16), (64, 12), (8, None)):
+        counts = ((126, None), (125, 16), (64, 12), (8, None))
+        if not quick:                  # EVERY legal number of AD components, without and with a nonce
+            counts = tuple((n, None) for n in range(127)) + tuple((n, 16) for n in range(126)) + ((64, 12),)
+        for (n, nl) in counts:
             yield ("aead", {"part": "aead", "c": "AES", "klen": klen, "vc": vc, "seed": seed, "mode": "SIV",
                             "nl": nl, "tl": 16, "aad": [(i * 7) % 35 for i in range(n)], "L": 17})
     elif kind == "crafted":
         _, c, klen, vc = shard
-        for cfg in crafted_cases(c, klen, vc, seed):
+        for cfg in crafted_cases(c, klen, vc, seed, quick):
             yield ("aead", cfg)
     elif kind == "rc4":
         _, klen, vc = shard
         drops = (None, 0, 1, 255, 256, 257, 768, 3072)
-        if klen not in (1, 5, 16, 40, 128, 255, 256):
+        if quick and klen not in (1, 5, 16, 40, 128, 255, 256):
             drops = (None, 3072)
         for drop in drops:
             ls = list(range(0, 66)) + [255, 256, 257, 511, 512, 513]
+            if not quick:
+                ls = list(range(0, 258)) + [511, 512, 513, 1023, 1024, 1025]
             yield ("stream", {"part": "stream", "c": "ARC4", "klen": klen, "vc": vc, "seed": seed, "drop": drop}, ls)
     elif kind == "salsa":
         _, klen, vc = shard
-        yield ("stream", {"part": "stream", "c": "Salsa20", "klen": klen, "vc": vc, "seed": seed}, lens_all(64))
+        yield ("stream", {"part": "stream", "c": "Salsa20", "klen": klen, "vc": vc, "seed": seed},
+               lens_all(64) if quick else lens_deep(64))
     elif kind == "chacha":
         _, nl, vc = shard
-        yield ("stream", {"part": "stream", "c": "ChaCha20", "klen": 32, "vc": vc, "seed": seed, "nl": nl}, lens_all(64))
-        for pos in (0, 1, 63, 64, 65, 127, 128, 64 * 255 + 63, 64 * 256, 64 * 65536 + 1, 64 * (2 ** 32 - 11) + 5):
+        yield ("stream", {"part": "stream", "c": "ChaCha20", "klen": 32, "vc": vc, "seed": seed, "nl": nl},
+               lens_all(64) if quick else lens_deep(64))
+        seeks = (0, 1, 63, 64, 65, 127, 128, 64 * 255 + 63, 64 * 256, 64 * 65536 + 1, 64 * (2 ** 32 - 11) + 5)
+        slens = [0, 1, 63, 64, 65, 129, 513]
+        if not quick:
+            seeks += (2, 31, 32, 62, 66, 191, 192, 193, 64 * 15 + 63, 64 * 16, 64 * 65535 + 63, 64 * 65536,
+                      64 * (2 ** 24 - 1) + 63, 64 * 2 ** 24, 64 * (2 ** 31 - 1) + 63, 64 * 2 ** 31 + 33, 64 * (2 ** 32 - 5))
+            slens = [0, 1, 2, 63, 64, 65, 127, 128, 129, 255, 256, 257, 513]
+        for pos in seeks:
             yield ("stream", {"part": "stream", "c": "ChaCha20", "klen": 32, "vc": vc, "seed": seed, "nl": nl,
-                              "seek": pos}, [0, 1, 63, 64, 65, 129, 513])
+                              "seek": pos}, slens)
         # two seeks on one object: every ordered pair of positions on both sides of the word boundaries of the counter
         two = [5, 64 * 255 + 63, 64 * (2 ** 32 - 11) + 5] + ([64 * 2 ** 32, 64 * (2 ** 32 + 1) + 1, 64 * (2 ** 40 - 1) + 63,
                                                             64 * (2 ** 63 + 7)] if nl == 8 else [])
+        tlens = [1, 65, 130]
+        if not quick:
+            two = [0, 64] + two[:1] + [64 * 256, 64 * 65536 + 1] + two[1:] + ([64 * (2 ** 32 - 1) + 60] if nl == 8 else [])
+            tlens = [0, 1, 64, 65, 130, 257]
         for pre in two:
             for pos in two:
                 if pre != pos:
                     yield ("stream", {"part": "stream", "c": "ChaCha20", "klen": 32, "vc": vc, "seed": seed, "nl": nl,
-                                      "pre": pre, "seek": pos}, [1, 65, 130])
+                                      "pre": pre, "seek": pos}, tlens)
+        if not quick:
+            # three seeks on one object: every sequence of 3 positions (adjacent ones distinct) over the quick alphabet
+            three = [5, 64 * 255 + 63, 64 * (2 ** 32 - 11) + 5] + ([64 * 2 ** 32, 64 * (2 ** 40 - 1) + 63] if nl == 8 else [64])
+            for p1 in three:
+                for p2 in three:
+                    for pos in three:
+                        if p1 != p2 and p2 != pos:
+                            yield ("stream", {"part": "stream", "c": "ChaCha20", "klen": 32, "vc": vc, "seed": seed,
+                                              "nl": nl, "pre": [p1, p2], "seek": pos}, [1, 65, 130])
         if nl == 8:      # 64-bit block counter: the carry out of the low counter word happens inside the message
             for pos in (64 * (2 ** 32 - 1) + 60, 64 * (2 ** 32 - 2) + 3, 64 * 2 ** 32, 64 * (2 ** 32 + 1) + 1,
                         64 * (2 ** 40 - 1) + 63):
@@ -1295,25 +1394,40 @@ def cases_of(shard, quick, seed):
             yield ("stream", {"part": "stream", "c": "ChaCha20", "klen": 32, "vc": vc, "seed": seed, "nl": nl,
                               "seek": 64 * (2 ** 32 - 1), "lastblock": True}, [1, 64])
     elif kind == "kw":
-        _, klen, vc = shard
-        for L in list(range(16, 8 * 46 + 1, 8)) + [512, 1024]:
-            yield ("kw", {"part": "kw", "c": "AES", "mode": "KW", "klen": klen, "vc": vc, "seed": seed, "L": L})
-        for L in list(range(1, 42)) + [63, 64, 65, 255, 256, 257, 343, 344, 345, 1025]:
-            yield ("kw", {"part": "kw", "c": "AES", "mode": "KWP", "klen": klen, "vc": vc, "seed": seed, "L": L})
+        klen, vc = shard[1], shard[2]
+        kwl = list(range(16, 8 * 46 + 1, 8)) + [512, 1024]
+        kwpl = list(range(1, 42)) + [63, 64, 65, 255, 256, 257, 343, 344, 345, 1025]
+        if not quick:      # every legal KW payload up to 1024 bytes, every KWP payload up to 520 bytes
+            kwl = list(range(16, 1025, 8)) + [2040, 2048, 2056]
+            kwpl = list(range(1, 521)) + [1023, 1024, 1025, 2047, 2048, 2049]
+        todo = [("KW", L) for L in kwl] + [("KWP", L) for L in kwpl]
+        if len(shard) > 3:             # thorough: the same list dealt out over shard[4] shards
+            todo.sort(key=lambda t: -t[1])
+            todo = todo[shard[3]::shard[4]]
+        for (m, L) in todo:
+            yield ("kw", {"part": "kw", "c": "AES", "mode": m, "klen": klen, "vc": vc, "seed": seed, "L": L})
     elif kind == "auto":
         _, vc = shard
-        for (c, klen, eff) in [("AES", 16, None), ("AES", 32, None), ("DES", 8, None), ("DES3", 24, None),
-                               ("Blowfish", 16, None), ("CAST", 16, None), ("ARC2", 16, 64)]:
+        akeys = [("AES", 16, None), ("AES", 32, None), ("DES", 8, None), ("DES3", 24, None),
+                 ("Blowfish", 16, None), ("CAST", 16, None), ("ARC2", 16, 64)]
+        if not quick:      # every (cipher, key length, variant) of the CTR key list, 8 message lengths, 3 AAD lengths
+            akeys += [k for k in classic_keys(quick) if k not in akeys]
+        for (c, klen, eff) in akeys:
             modes = ["CBC", "CFB", "OFB", "OPENPGP", "EAX"]
             if c == "AES":
                 modes += ["CTR", "GCM", "CCM", "OCB"]
             for mode in modes:
-                for L in (0, 1, BS[c], 3 * BS[c] + 1):
+                bs = BS[c]
+                done = set()
+                for L in ((0, 1, bs, 3 * bs + 1) if quick else (0, 1, bs - 1, bs, bs + 1, 2 * bs, 3 * bs + 1, 8 * bs + 1)):
                     if mode == "CBC" and L % BS[c]:
                         L += BS[c] - L % BS[c]
-                    yield ("auto", {"part": "auto", "c": c, "klen": klen, "eff": eff, "mode": mode, "vc": vc,
-                                    "seed": seed, "L": L, "aad": 5})
-        for L in (0, 1, 64, 129):
+                    for a in ((5,) if quick or mode not in ("EAX", "GCM", "CCM", "OCB") else (0, 5, 17)):
+                        if quick or (L, a) not in done:
+                            done.add((L, a))
+                            yield ("auto", {"part": "auto", "c": c, "klen": klen, "eff": eff, "mode": mode, "vc": vc,
+                                            "seed": seed, "L": L, "aad": a})
+        for L in ((0, 1, 64, 129) if quick else (0, 1, 63, 64, 65, 128, 129, 513)):
             yield ("auto", {"part": "auto", "c": "ChaCha20", "klen": 32, "mode": "stream", "vc": vc, "seed": seed, "L": L})
             yield ("auto", {"part": "auto", "c": "Salsa20", "klen": 32, "mode": "stream", "vc": vc, "seed": seed, "L": L})
             yield ("auto", {"part": "auto", "c": "Salsa20", "klen": 16, "mode": "stream", "vc": vc, "seed": seed, "L": L})
@@ -1322,6 +1436,28 @@ def cases_of(shard, quick, seed):
     elif kind == "des3key":
         for cfg in des3key_cases(shard, seed):
             yield ("des3key", cfg)
+    elif kind == "bigp":
+        # thorough: one prefix-closed configuration, EVERY length of BIG_DEEP (+ BIG_HUGE) against one reference run
+        _, part, c, klen, mode, vc, huge = shard
+        ls = list(BIG_DEEP) + (list(BIG_HUGE) if huge else [])
+        if part == "classic":
+            bs = BS[c]
+            cfg = {"part": "classic", "c": c, "klen": klen, "eff": None, "vc": vc, "seed": seed, "mode": mode}
+            if mode[:3] == "CFB":
+                cfg.update(mode="CFB", seg={"CFB": 8, "CFBmid": 4 * bs, "CFB128": 8 * bs}[mode])
+            elif mode == "CTR":
+                cfg["ctr"] = {"kind": "nonce", "nl": bs // 2, "iv": 0xF1}
+            elif mode == "CTRle":      # little-endian counter in the middle of the block, carries out of 3 bytes inside
+                cfg.update(mode="CTR", ctr={"kind": "counter", "p": 1, "cl": bs // 2 + 1, "s": bs - 2 - bs // 2, "le": True,
+                                            "iv": 0xFFFFF1})
+            elif mode in ("ECB", "CBC"):   # block multiples only: the two nearest of each size
+                ls = sorted(set(v for L in ls for v in (L // bs * bs, -(-L // bs) * bs)))
+            yield ("classic", cfg, ls)
+        else:
+            cfg = {"part": "stream", "c": c, "klen": klen, "vc": vc, "seed": seed}
+            if c == "ChaCha20":
+                cfg["nl"] = mode
+            yield ("stream", cfg, ls)
     elif kind == "big":
         _, part, c, klen, mode, L, vc = shard
         if part == "classic":
@@ -1338,14 +1474,20 @@ def cases_of(shard, quick, seed):
                 yield ("aead", {"part": "aead", "c": c, "klen": klen, "vc": vc, "seed": seed, "mode": "CCM", "nl": 13,
                                 "tl": 8, "aad": 17, "L": L, "ccm": "auto"})
                 return
-            nl = {"GCM": 12, "CCM": 11, "EAX": 16, "OCB": 15, "SIV": 16, "CHAPOLY": 12}[mode]
-            cfg = {"part": "aead", "c": c, "klen": klen, "vc": vc, "seed": seed, "mode": mode, "nl": nl, "tl": 16,
-                   "aad": [33] if mode == "SIV" else 33, "L": L}
+            nl = {"GCM": 12, "CCM": 11, "EAX": BS.get(c, 16), "OCB": 15, "SIV": 16, "CHAPOLY": 12, "CHAPOLY24": 24}[mode]
+            if mode == "CHAPOLY24":
+                mode = "CHAPOLY"
+            cfg = {"part": "aead", "c": c, "klen": klen, "vc": vc, "seed": seed, "mode": mode, "nl": nl,
+                   "tl": BS.get(c, 16), "aad": [33] if mode == "SIV" else 33, "L": L}
             if mode == "CCM":
                 cfg["ccm"] = "declared"
             yield ("aead", cfg)
             if mode == "GCM":
                 yield ("aead", dict(cfg, nl=16, aad=L, L=17))
+            elif not quick:            # thorough: associated data of that size for every AEAD mode
+                if mode == "CCM":
+                    cfg["ccm"] = "auto"
+                yield ("aead", dict(cfg, aad=[L] if mode == "SIV" else L, L=17))
         elif part == "stream":
             cfg = {"part": "stream", "c": c, "klen": klen, "vc": vc, "seed": seed, "L": L}
             if c == "ChaCha20":
